@@ -159,6 +159,17 @@ CHECKS["C17"] = dict(
     note="trusted: the composer's span bookkeeping (lexemes separated by blanks), Debug names of UiTokenType, TLC; only number / operator / comment lexemes are claimed",
     ref="7 C17")
 
+CHECKS["C01"] = dict(
+    technique="TLA+ system model (evaluation loop of SmartCalc.tla: SlotPerLine, LoopIsRunLines, Terminates under fairness) model-checked by TLC; TLC-enumerated lexeme-class sequences instantiated and executed; every execution validated by TLC as a step of the model (Trace.tla); fuzz driver",
+    text="Model-checked: the evaluation loop appends exactly one slot per line, an error slot never disables the rest of the loop, a started evaluation ends. Conformance: TLC enumerates every "
+         "sequence of 1..2 (thorough 3) lexeme classes out of a 25-class alphabet built from reading the code (boundary numbers, over-long radix literals, atoms, fields, every configured word, "
+         "operator characters, unicode shapes, huge counts); the driver joins them into texts of 1..4 lines with LF / CRLF under 4 language tags (one unknown, one empty) and 6 separator / zone "
+         "configurations, adds a fuzz set (random UTF-8, dictionary words, regex-shaped fragments, mutated test lines), runs everything in worker processes with panic, crash and hang capture, "
+         "and TLC validates each execution: returned, status true, one admissible slot per line, and every line's slot equal to the slot of that line alone. The panic / termination half is "
+         "exploration driven by the model's alphabet - TLA+ cannot see Rust panics - and the evidence says so.",
+    note="trusted: worker-process isolation with panic hook and 30 s watchdog, projection, TLC; lines <= 256 characters; custom rules are outside C01's configuration space",
+    ref="7 C01")
+
 NOT_YET = {
 }
 
